@@ -40,7 +40,7 @@ const clientPreface = "PRI * HTTP/2.0\r\n\r\nSM\r\n\r\n"
 type sinkConn struct{ api.Connection }
 
 func (sinkConn) Write(bufs ...buffer.IoBuffer) error { return nil }
-func (sinkConn) State() api.ConnState               { return api.ConnActive }
+func (sinkConn) State() api.ConnState                { return api.ConnActive }
 
 type prio struct {
 	Dep    uint32
@@ -91,7 +91,10 @@ func recX(f xhttp2.Frame) frec {
 	case *xhttp2.DataFrame:
 		r.Payload = string(f.Data())
 	case *xhttp2.SettingsFrame:
-		_ = f.ForeachSetting(func(s xhttp2.Setting) error { r.Settings = append(r.Settings, [2]uint32{uint32(s.ID), s.Val}); return nil })
+		_ = f.ForeachSetting(func(s xhttp2.Setting) error {
+			r.Settings = append(r.Settings, [2]uint32{uint32(s.ID), s.Val})
+			return nil
+		})
 	case *xhttp2.MetaHeadersFrame:
 		for _, x := range f.Fields {
 			r.Fields = append(r.Fields, hf{x.Name, x.Value, x.Sensitive})
@@ -129,7 +132,10 @@ func recM(f mhttp2.Frame) frec {
 	case *mhttp2.DataFrame:
 		r.Payload = string(f.Data())
 	case *mhttp2.SettingsFrame:
-		_ = f.ForeachSetting(func(s mhttp2.Setting) error { r.Settings = append(r.Settings, [2]uint32{uint32(s.ID), s.Val}); return nil })
+		_ = f.ForeachSetting(func(s mhttp2.Setting) error {
+			r.Settings = append(r.Settings, [2]uint32{uint32(s.ID), s.Val})
+			return nil
+		})
 	case *mhttp2.MetaHeadersFrame:
 		for _, x := range f.Fields {
 			r.Fields = append(r.Fields, hf{x.Name, x.Value, x.Sensitive})
